@@ -147,3 +147,11 @@ Theorem C09_wavelet_3d_isometry : forall (R : StarRing) level L n1 n2 n3 (flo fh
     adj (wavedec3_op level L n1 n2 n3 flo fhi glo ghi) (fwd (wavedec3_op level L n1 n2 n3 flo fhi glo ghi) x) j = x j.
 Proof. exact wavedec3_isometry. Qed.
 Print Assumptions C09_wavelet_3d_isometry.
+(* non-vacuity in 2-D and 3-D: with the integer Haar filters (c = 2) the executed model gives W^H W = 4 I on a 3 x 5 image and 8 I on a
+   2 x 3 x 3 volume (odd sizes: the zero-padded border is exercised), as C09_wavelet_2d_gram / C09_wavelet_3d_gram state *)
+Example C09_wavelet_haar_2d_3d :
+  (let A := wavedec2_Z 1 2 3 5 [1;1] [-1;1] [1;1] [1;-1] in
+   map (fun t => adj A (fwd A (fun i => Z.of_nat i * Z.of_nat i - 7)%Z) t) (seq 0 15) = map (fun t => (4 * (Z.of_nat t * Z.of_nat t - 7))%Z) (seq 0 15)) /\
+  (let A := wavedec3_Z 1 2 2 3 3 [1;1] [-1;1] [1;1] [1;-1] in
+   map (fun t => adj A (fwd A (fun i => Z.of_nat i * Z.of_nat i - 7)%Z) t) (seq 0 18) = map (fun t => (8 * (Z.of_nat t * Z.of_nat t - 7))%Z) (seq 0 18)).
+Proof. vm_compute. split; reflexivity. Qed.
